@@ -104,7 +104,7 @@ func ZZ_C05_crash() {
 		}
 	}
 	// both parts of both blocks are offered again, any order: the node converges
-	nerr := zzRunSync(m, P, zzsym.Pick("order3", 6))
+	nerr := zzRunSync(m, P, zzsym.Pick("order3", zzC05Orders))
 	zzsym.Assert(nerr == 0, "resync-after-crash-does-not-fail")
 	zzsym.Assert(e.store.height == H+2, "reaches-the-proposers-chain-after-restart")
 	zzsym.Assert(bytes.Equal(m.lastState.AppHash, roots[1]) && m.lastState.LastBlockHeight == H+2, "reaches-the-proposers-state-after-restart")
